@@ -14,6 +14,20 @@ import (
 func (cx *Ctx) c15Calls(r *rng, k int) []spec.Call {
 	gc := genCfg{allowRandomGreedy: true, nastyPct: 3, multiPct: 25, bigPct: 0}
 	var calls []spec.Call
+	// swarm: in half of the specs all callers use the same algorithm selection (state shared on a path that only
+	// one algorithm takes is reached by every caller), and their graphs are cyclic more often than not
+	common := r.chance(50)
+	var shared spec.Options
+	defer func() {
+		if !common || len(calls) == 0 {
+			return
+		}
+		shared = calls[0].Opts
+		for i := range calls {
+			o := &calls[i].Opts
+			o.P1, o.P2, o.P3, o.P4, o.BK, o.P5 = shared.P1, shared.P2, shared.P3, shared.P4, shared.BK, shared.P5
+		}
+	}()
 	for i := 0; i < k; i++ {
 		es, _ := genGraph(r, gc)
 		if len(es) > 16 {
@@ -36,6 +50,33 @@ func (cx *Ctx) c15Calls(r *rng, k int) []spec.Call {
 			}
 			shuffleEdges(r, es)
 		}
+		if common && r.chance(60) {
+			// make sure there are directed cycles of length >= 3 (cycle breaking, reversed edges, back edges)
+			ids := nodeIDs(es)
+			for c := r.between(1, 3); c > 0 && len(ids) >= 3; c-- {
+				a, b, d := ids[r.intn(len(ids))], ids[r.intn(len(ids))], ids[r.intn(len(ids))]
+				if a != b && b != d && a != d {
+					es = append(es, []string{a, b}, []string{b, d}, []string{d, a})
+				}
+			}
+		}
+		if r.chance(10) {
+			// hubs: nodes with 16+ in- or out-edges between two crossing layers (degree-thresholded fast paths)
+			es = nil
+			h := 2
+			w := r.between(18, 24)
+			for x := 0; x < h; x++ {
+				down := r.chance(70)
+				for y := 0; y < w; y++ {
+					if down {
+						es = append(es, edge(x, 10+y))
+					} else {
+						es = append(es, edge(10+y, x))
+					}
+				}
+			}
+			shuffleEdges(r, es)
+		}
 		o := genOptions(r, es, gc)
 		if o.P5 == "splines" && r.chance(70) {
 			o.P5 = "polyline"
@@ -43,6 +84,21 @@ func (cx *Ctx) c15Calls(r *rng, k int) []spec.Call {
 		calls = append(calls, spec.Call{Edges: es, Opts: o})
 	}
 	return calls
+}
+
+// two dense layers in which every node is a hub (degree >= 16): thresholded fast paths for high-degree nodes
+func c15Dense(r *rng, tag string) [][]string {
+	a, b := r.between(16, 18), r.between(16, 18)
+	var es [][]string
+	for x := 0; x < a; x++ {
+		for y := 0; y < b; y++ {
+			if r.chance(97) {
+				es = append(es, []string{fmt.Sprintf("t%s%d", tag, x), fmt.Sprintf("b%s%d", tag, y)})
+			}
+		}
+	}
+	shuffleEdges(r, es)
+	return es
 }
 
 func c15Schedules(r *rng, n int) []*spec.Schedule {
@@ -56,7 +112,7 @@ func c15Schedules(r *rng, n int) []*spec.Schedule {
 			out = append(out, &spec.Schedule{Policy: "pct", Seed: r.next(), Depth: r.between(1, 3), EntryPct: pick(r, 0, 3)})
 		case 2:
 			// preemption inside loops: reaches interleavings over heap objects shared through a pool or an alias
-			out = append(out, &spec.Schedule{Policy: pick(r, "random", "rr"), Seed: r.next(), LoopPct: pick(r, 5, 30, 150), EntryPct: pick(r, 0, 5)})
+			out = append(out, &spec.Schedule{Policy: pick(r, "random", "rr"), Seed: r.next(), LoopPct: pick(r, 2, 10, 40), EntryPct: pick(r, 0, 3)})
 		default:
 			out = append(out, &spec.Schedule{Policy: "rr", Seed: r.next(), EntryPct: pick(r, 1, 5, 25)})
 		}
@@ -183,12 +239,36 @@ func (cx *Ctx) runC15() {
 	for i := 0; i < nSpecs; i++ {
 		k := r.between(2, 8)
 		calls := cx.c15Calls(&r, k)
+		dense := r.chance(2)
+		if dense {
+			k = 2
+			o := spec.Options{P1: pick(&r, "", "dfs"), P4: pick(&r, "", "valign", "packright"), P5: pick(&r, "", "straight", "noop")}
+			calls = []spec.Call{{Edges: c15Dense(&r, "x"), Opts: o}, {Edges: c15Dense(&r, "y"), Opts: o}}
+		}
 		res := make([]spec.Resolution, k)
 		for t := range res {
 			res[t] = spec.Resolution{Adv: pick(&r, "identity", "identity", "seeded"), AdvSeed: r.next(), T0: int64(r.next() >> 3)}
 		}
-		for _, sc := range c15Schedules(&r, nSched) {
-			jobs = append(jobs, &spec.Job{ID: len(jobs), Kind: "conc", Calls: calls, Res: res, Sched: sc, Budgets: cx.Budgets})
+		scheds := c15Schedules(&r, nSched)
+		if dense {
+			scheds = scheds[:nSched/2] // expensive specs: half the schedules
+		}
+		for _, sc := range scheds {
+			if dense && sc.LoopPct == 0 && sc.EntryPct == 0 {
+				sc = &spec.Schedule{Policy: "random", Seed: r.next(), EntryPct: 3, LoopPct: 10}
+			}
+			if sc.Policy == "pct" {
+				// each caller makes roughly 20-80 shared-state accesses; change points are spread over that many steps
+				sc.Steps = 50 * k
+				if sc.EntryPct > 0 {
+					sc.Steps *= 8
+				}
+			}
+			b := cx.Budgets
+			if dense {
+				b.Ticks, b.Frame = 600_000_000, 20_000_000
+			}
+			jobs = append(jobs, &spec.Job{ID: len(jobs), Kind: "conc", Calls: calls, Res: res, Sched: sc, Budgets: b})
 		}
 	}
 	cx.phase(fmt.Sprintf("C15: %d schedules over %d specs", len(jobs), nSpecs))
@@ -196,6 +276,7 @@ func (cx *Ctx) runC15() {
 	// replays exactly (no dependence on what the worker did before)
 	results := cx.simFresh.Run(jobs, nil)
 	cx.phase("C15: analysing")
+	cx.slowest(results, 10)
 	fps := map[string]bool{}
 	nontrivial := map[string]bool{}
 	accesses := map[string]int{}
@@ -416,23 +497,39 @@ func (cx *Ctx) c15Real(r *rng) map[string]any {
 	}
 	// inputs: must return under simulation first (the real runtime has no budget)
 	var cand []*spec.Job
-	for i := 0; i < 60; i++ {
-		c := cx.c15Calls(r, 1)[0]
+	for i := 0; i < 90; i++ {
+		var c spec.Call
+		if i%3 == 0 {
+			c = cx.c15Calls(r, 1)[0]
+		} else {
+			// pairs of callers with the same algorithm selection as the previous candidate
+			c = cx.c15Calls(r, 1)[0]
+			p := cand[len(cand)-1].Calls[0].Opts
+			c.Opts.P1, c.Opts.P2, c.Opts.P3, c.Opts.P4, c.Opts.BK, c.Opts.P5 = p.P1, p.P2, p.P3, p.P4, p.BK, p.P5
+			ids := nodeIDs(c.Edges)
+			if len(ids) >= 3 {
+				c.Edges = append(c.Edges, []string{ids[0], ids[1]}, []string{ids[1], ids[2]}, []string{ids[2], ids[0]})
+			}
+		}
 		if c.Opts.P5 == "splines" {
 			c.Opts.P5 = "ortho"
 		}
 		cand = append(cand, &spec.Job{ID: i, Kind: "multi", Calls: []spec.Call{c}, Res: []spec.Resolution{{Adv: "identity"}, {Adv: "reverse"}}, Budgets: cx.Budgets})
 	}
+	for i := 0; i < 4; i++ {
+		cand = append(cand, &spec.Job{ID: len(cand), Kind: "multi", Calls: []spec.Call{{Edges: c15Dense(r, fmt.Sprint("d", i)), Opts: spec.Options{P5: "straight"}}},
+			Res: []spec.Resolution{{Adv: "identity"}, {Adv: "reverse"}}, Budgets: cx.Budgets})
+	}
 	var calls []spec.Call
 	for _, jr := range cx.sim.Run(cand, nil) {
-		if jr.Res != nil && len(jr.Res.Outcomes) == 2 && jr.Res.Outcomes[0].Verdict == "OK" && jr.Res.Outcomes[1].Verdict == "OK" && jr.Res.Outcomes[0].Ticks < 300000 {
+		if jr.Res != nil && len(jr.Res.Outcomes) == 2 && jr.Res.Outcomes[0].Verdict == "OK" && jr.Res.Outcomes[1].Verdict == "OK" && (jr.Res.Outcomes[0].Ticks < 300000 || jr.Job.ID >= 90) {
 			calls = append(calls, jr.Job.Calls[0])
 		}
 	}
-	if len(calls) > 24 {
-		calls = calls[:24]
+	if len(calls) > 52 {
+		calls = append(calls[:48], calls[len(calls)-4:]...)
 	}
-	rounds := cx.count(6, 60)
+	rounds := cx.count(12, 120)
 	type cfg struct {
 		procs string
 		g     int
